@@ -61,6 +61,15 @@ impl Stats {
 }
 
 fn check_grammar(ctx: &Ctx, mode: Mode, g: &RefGrammar, n: usize, only_input: Option<&Vec<usize>>) -> Stats {
+    ctx.guard(
+        &format!("building / querying the table of {}", g.short()),
+        || json!({"grammar": g.to_json(), "input": [], "detail": null}),
+        Stats::default(),
+        || check_grammar_inner(ctx, mode, g, n, only_input),
+    )
+}
+
+fn check_grammar_inner(ctx: &Ctx, mode: Mode, g: &RefGrammar, n: usize, only_input: Option<&Vec<usize>>) -> Stats {
     let mut st = Stats::default();
     st.grammars = 1;
     let b: Built<u32> = match build(g) {
@@ -137,7 +146,10 @@ fn check_grammar(ctx: &Ctx, mode: Mode, g: &RefGrammar, n: usize, only_input: Op
         }
         let inp = HInput::new(w);
         st.parses += 1;
-        let out = parse(&b, &inp, RecoveryKind::None, None);
+        let out = match ctx.guard(&format!("parsing {:?} with recovery off, {}", w, g.short()), || case(w, json!(null)), None, || Some(parse(&b, &inp, RecoveryKind::None, None))) {
+            Some(o) => o,
+            None => continue,
+        };
         let (acc, viable) = ea.run(w);
         let accepted_clean = out.tree.is_some() && out.errors.is_empty();
         if accepted_clean {
@@ -240,8 +252,12 @@ fn check_grammar(ctx: &Ctx, mode: Mode, g: &RefGrammar, n: usize, only_input: Op
                 }
                 // recovery on: first error at the same lexeme
                 lrpar::verif_hooks::set_recovery_step_budget(5_000);
-                let out2 = parse(&b, &inp, RecoveryKind::CPCTPlus, None);
+                let out2 = ctx.guard(&format!("parsing {:?} with recovery on, {}", w, g.short()), || case(w, json!(null)), None, || Some(parse(&b, &inp, RecoveryKind::CPCTPlus, None)));
                 lrpar::verif_hooks::set_recovery_step_budget(u64::MAX);
+                let out2 = match out2 {
+                    Some(o) => o,
+                    None => continue,
+                };
                 let ok2 = !out2.errors.is_empty() && out2.errors[0].lex_idx == Some(e);
                 if !ok2 {
                     ctx.violation(
